@@ -17,7 +17,8 @@ TRUSTED = [
     "clang ThreadSanitizer (-fsanitize=thread, halt_on_error=0) and llvm-symbolizer: reports parsed by impl/t_conc.c; one "
     "suppression (race:tzset_internal: glibc serialises tzset()/localtime_r() with a lock TSan does not see)",
     "GNU ld --wrap: pthread_mutex_lock/unlock, lyht_find/insert/remove(_with_resize_cb), lydict_insert_zc and free are wrapped by "
-    "impl/t_conc.c (lock-set trace, forced schedules, quarantine of the freed error arena in the forced err-rec scenario)",
+    "impl/t_conc.c (lock-set trace, forced schedules; on the release build the error table arena freed during a forced err-rec "
+    "scenario is zeroed and kept so that a regression of 75f292f loses error records deterministically)",
 ]
 
 ASSUMPTIONS = [
@@ -42,23 +43,25 @@ MANIFEST = {
             "lydict_insert/remove, cut anywhere, is equivalent to the serial execution of the calls in the order they "
             "returned, which respects program order; every call got the serial result), C16_dict_final_refcounts (if threads "
             "only give back references they hold, every call succeeds and final counts = initial + references still held, "
-            "for every schedule), C16_err_records_isolated (ly_err_first/last through a valid record pointer only returns "
-            "items the same thread stored; arbitrary programs), C16_private_ops_schedule_independent. Refuted with explicit "
-            "schedules (vm_compute): err_rec_pointer_stable_refuted (6 threads: the record pointer returned by "
-            "ly_err_get_rec dangles after another thread's first error enlarges err_ht), canon_cache_single_ref_refuted (two "
-            "readers of one shared value both pass the unlocked test of _canonical, one dictionary reference leaks). Tie: T2 "
+            "for every schedule), C16_err_records_isolated (ly_err_first/last only returns items the same thread stored; "
+            "arbitrary programs), C16_err_rec_pointer_stable (arbitrary programs, any number of threads, every schedule: the "
+            "record handle returned by ly_err_get_rec/ly_err_new_rec names a live record whenever it is used after the lock was "
+            "dropped; true since /repo 75f292f, the former 6-thread refutation witness is kept as Example "
+            "C16_former_err_rec_witness), C16_private_ops_schedule_independent. Refuted with an explicit schedule "
+            "(vm_compute): canon_cache_single_ref_refuted (two readers of one shared value both pass the unlocked test of "
+            "_canonical, one dictionary reference leaks). Tie: T2 "
             "runs forced schedules (call-level interleavings, preemption between the _canonical test and the store, "
             "preemption between ly_err_get_rec and the dereference) through the extracted model and through the C code "
             "(impl/t_conc.c: sequencing operations + link-time hooks) and compares strings left in the dictionary, lock-set "
-            "violations, the dangling verdict and every ly_err_last result. Oracle conc-serial: 2..8 threads on one context "
+            "violations and every ly_err_last result. Oracle conc-serial: 2..8 threads on one context "
             "and one shared tree (parse XML/JSON/LYB, validate, print, XPath, dup, diff, apply, dictionary calls, schema "
             "find/print, failing parses + error reads; shared-tree prints, find_path, find_xpath, eval_xpath, compare) must "
             "give every thread the results it gets alone in a fresh context, bring the dictionary back to the post-setup "
             "size, never touch a table without its lock, and (ThreadSanitizer build) raise no report.",
-    "note": "Known findings (still in the code): err-rec-resize, canon-lazy-cache; both have a deterministic forced-schedule "
-            "replay on the release build. Cases are constructed so that the listed races are either excluded (shared tree "
-            "warmed, error records created one after the other, < 6 threads) - then nothing may be reported - or possible - "
-            "then only reports with the stacks / consequences of the listed race are attributed to it. Not covered: "
+    "note": "Known finding (still in the code): canon-lazy-cache, with a deterministic forced-schedule replay on the release "
+            "build; err-rec-resize is fixed (75f292f) and its forced schedule is a regression case (model, T2 and oracle). Cases "
+            "are constructed so that the listed race is either excluded (shared tree warmed or absent) - then nothing may be "
+            "reported - or possible - then only reports with its stacks / consequences are attributed to it. Not covered: "
             "concurrent context changes (not allowed by the property), plugins other than the built-in ones, "
             "ly_log_options/ly_log_level changes while threads run, LY_CTX_LEAFREF_LINKING.",
     "technique": "Coq proof over a hand-written concurrency model (interleaving semantics) + forced-schedule correspondence "
